@@ -178,6 +178,11 @@ type Engine struct {
 	// LoopOnce: execute loop bodies that contain tracked effects once,
 	// bracketed by loop/endloop events (default true).
 	NoLoopBody bool
+	// Impure: calls whose result differs between invocations (l.next()); every
+	// evaluation gets its own number in the key.
+	Impure func(callee *types.Func) bool
+	// TrackExpr names an expression node (slice, index, division) as an effect.
+	TrackExpr func(x ast.Expr) string
 
 	paths    []*Path
 	err      error
@@ -195,13 +200,18 @@ type env struct {
 	events  []Event
 	defers  []Event
 	seen    map[string]int // call keys already produced (distinct invocations)
+	inst    map[*ast.CallExpr]int
+	instN   int
 	fresh   int
 }
 
 func (v *env) clone() *env {
 	n := &env{bind: make(map[types.Object]string, len(v.bind)), boolv: make(map[types.Object]*bool, len(v.boolv)),
 		version: make(map[*types.Var]int, len(v.version)), atoms: make(map[string]bool, len(v.atoms)),
-		seen: make(map[string]int, len(v.seen)), fresh: v.fresh}
+		seen: make(map[string]int, len(v.seen)), fresh: v.fresh, inst: make(map[*ast.CallExpr]int, len(v.inst)), instN: v.instN}
+	for k, x := range v.inst {
+		n.inst[k] = x
+	}
 	for k, x := range v.bind {
 		n.bind[k] = x
 	}
@@ -231,6 +241,7 @@ const (
 	ctlBreak
 	ctlContinue
 	ctlPanic
+	ctlFallthrough
 )
 
 type undecidedErr struct {
@@ -270,7 +281,7 @@ func (e *Engine) RunBody(ft *ast.FuncType, recv *ast.FieldList, body *ast.BlockS
 		}
 	}()
 	v := &env{bind: map[types.Object]string{}, boolv: map[types.Object]*bool{}, version: map[*types.Var]int{},
-		atoms: map[string]bool{}, seen: map[string]int{}}
+		atoms: map[string]bool{}, seen: map[string]int{}, inst: map[*ast.CallExpr]int{}}
 	e.execBlock(v, body.List, func(v *env, c ctl) {
 		if c == ctlNext {
 			e.finish(v, "end", nil, body.Rbrace)
@@ -358,7 +369,7 @@ func (e *Engine) execStmt(v *env, s ast.Stmt, k cont) {
 	case *ast.TypeSwitchStmt:
 		e.execStmt(v, s.Init, func(v *env, c ctl) { e.typeSwitch(v, s, k) })
 	case *ast.ForStmt:
-		e.execStmt(v, s.Init, func(v *env, c ctl) { e.loop(v, s, s.Body, nil, k) })
+		e.execStmt(v, s.Init, func(v *env, c ctl) { e.forLoop(v, s, k) })
 	case *ast.RangeStmt:
 		e.loop(v, s, s.Body, s, k)
 	case *ast.BranchStmt:
@@ -371,7 +382,7 @@ func (e *Engine) execStmt(v *env, s ast.Stmt, k cont) {
 		case token.CONTINUE:
 			k(v, ctlContinue)
 		case token.FALLTHROUGH:
-			panic(undecidedErr{s.Pos(), "fallthrough"})
+			k(v, ctlFallthrough)
 		default:
 			panic(undecidedErr{s.Pos(), "goto"})
 		}
@@ -607,27 +618,42 @@ func (e *Engine) doReturn(v *env, s *ast.ReturnStmt, k cont) {
 }
 
 func (e *Engine) switchStmt(v *env, s *ast.SwitchStmt, k cont) {
+	var all []*ast.CaseClause
 	var clauses []*ast.CaseClause
 	var def *ast.CaseClause
 	for _, c := range s.Body.List {
 		cc := c.(*ast.CaseClause)
+		all = append(all, cc)
 		if cc.List == nil {
 			def = cc
 		} else {
 			clauses = append(clauses, cc)
 		}
 	}
-	after := func(v *env, c ctl) {
-		if c == ctlBreak {
-			c = ctlNext
-		}
-		k(v, c)
+	var run func(v *env, cc *ast.CaseClause)
+	run = func(v *env, cc *ast.CaseClause) {
+		e.execBlock(v, cc.Body, func(v *env, c ctl) {
+			switch c {
+			case ctlBreak:
+				k(v, ctlNext)
+			case ctlFallthrough:
+				for i, x := range all {
+					if x == cc && i+1 < len(all) {
+						run(v, all[i+1])
+						return
+					}
+				}
+				k(v, ctlNext)
+			default:
+				k(v, c)
+			}
+		})
 	}
 	var try func(v *env, ci, xi int)
 	try = func(v *env, ci, xi int) {
 		if ci == len(clauses) {
 			if def != nil {
-				e.execBlock(v, def.Body, after)
+				run(v, def)
 			} else {
 				k(v, ctlNext)
 			}
@@ -644,7 +670,7 @@ func (e *Engine) switchStmt(v *env, s *ast.SwitchStmt, k cont) {
 		}
 		e.cond(v, c, func(v *env, b bool) {
 			if b {
-				e.execBlock(v, cc.Body, after)
+				run(v, cc)
 			} else {
 				try(v, ci, xi+1)
 			}
@@ -770,6 +796,18 @@ func (e *Engine) tracked(n ast.Node) bool {
 			if e.TrackStore != nil && e.TrackStore(x.Chan, types.ExprString(x.Chan)) != "" {
 				found = true
 			}
+		case *ast.SliceExpr:
+			if e.TrackExpr != nil && e.TrackExpr(x) != "" {
+				found = true
+			}
+		case *ast.IndexExpr:
+			if e.TrackExpr != nil && e.TrackExpr(x) != "" {
+				found = true
+			}
+		case *ast.BinaryExpr:
+			if e.TrackExpr != nil && (x.Op == token.QUO || x.Op == token.REM) && e.TrackExpr(x) != "" {
+				found = true
+			}
 		}
 		return true
 	})
@@ -815,6 +853,40 @@ func (e *Engine) havocLoc(v *env, l ast.Expr) {
 	if f := e.fieldOf(l); f != nil {
 		v.version[f]++
 	}
+}
+
+// forLoop: a three-clause loop whose condition or post statement carries
+// tracked effects is modelled as "condition false: skip | condition true: body,
+// post, leave"; otherwise as loop().
+func (e *Engine) forLoop(v *env, s *ast.ForStmt, k cont) {
+	hdr := (s.Cond != nil && e.tracked(s.Cond)) || (s.Post != nil && e.tracked(s.Post))
+	if !hdr {
+		e.loop(v, s, s.Body, nil, k)
+		return
+	}
+	e.cond(v, s.Cond, func(v *env, b bool) {
+		if !b {
+			k(v, ctlNext)
+			return
+		}
+		v.events = append(v.events, Event{Kind: "loop", Name: "for", Pos: s.Pos(), Node: s})
+		e.execBlock(v, s.Body.List, func(v *env, c ctl) {
+			switch c {
+			case ctlReturn, ctlPanic:
+				k(v, c)
+				return
+			case ctlBreak:
+				v.events = append(v.events, Event{Kind: "break", Name: "for", Pos: s.Pos(), Node: s})
+				v.events = append(v.events, Event{Kind: "endloop", Name: "for", Pos: s.End(), Node: s})
+				k(v, ctlNext)
+				return
+			}
+			e.execStmt(v, s.Post, func(v *env, c ctl) {
+				v.events = append(v.events, Event{Kind: "endloop", Name: "for", Pos: s.End(), Node: s})
+				k(v, ctlNext)
+			})
+		})
+	})
 }
 
 func (e *Engine) loop(v *env, s ast.Stmt, body *ast.BlockStmt, rs *ast.RangeStmt, k cont) {
@@ -1084,6 +1156,29 @@ func (e *Engine) effects(v *env, x ast.Expr, k func(v *env)) {
 	for _, c := range calls {
 		e.recordCall(v, c)
 	}
+	if e.TrackExpr != nil {
+		ast.Inspect(x, func(n ast.Node) bool {
+			switch y := n.(type) {
+			case *ast.FuncLit:
+				return false
+			case *ast.SliceExpr:
+				if name := e.TrackExpr(y); name != "" {
+					v.events = append(v.events, Event{Kind: "expr", Name: name, Recv: e.key(v, y.X), Args: []string{e.key(v, y.Low), e.key(v, y.High)}, Pos: y.Pos(), Node: y})
+				}
+			case *ast.IndexExpr:
+				if name := e.TrackExpr(y); name != "" {
+					v.events = append(v.events, Event{Kind: "expr", Name: name, Recv: e.key(v, y.X), Args: []string{e.key(v, y.Index)}, Pos: y.Pos(), Node: y})
+				}
+			case *ast.BinaryExpr:
+				if y.Op == token.QUO || y.Op == token.REM {
+					if name := e.TrackExpr(y); name != "" {
+						v.events = append(v.events, Event{Kind: "expr", Name: name, Args: []string{e.key(v, y.X), e.key(v, y.Y)}, Pos: y.Pos(), Node: y})
+					}
+				}
+			}
+			return true
+		})
+	}
 	k(v)
 }
 
@@ -1097,6 +1192,10 @@ func (e *Engine) effectsArgs(v *env, call *ast.CallExpr, k func(v *env)) {
 
 func (e *Engine) recordCall(v *env, c *ast.CallExpr) {
 	callee := core.Callee(e.Info, c)
+	if e.Impure != nil && callee != nil && e.Impure(callee) {
+		v.instN++
+		v.inst[c] = v.instN
+	}
 	if e.TrackCall != nil {
 		if n := e.TrackCall(c, callee); n != "" {
 			ev := Event{Kind: "call", Name: n, Pos: c.Pos(), Node: c}
@@ -1238,6 +1337,9 @@ func (e *Engine) key(v *env, x ast.Expr) string {
 		}
 		if tv, ok := e.Info.Types[x.Fun]; ok && tv.IsType() {
 			return types.TypeString(tv.Type, e.qual) + "(" + strings.Join(args, ", ") + ")"
+		}
+		if n, ok := v.inst[x]; ok {
+			return fmt.Sprintf("%s(%s)#%d", e.key(v, x.Fun), strings.Join(args, ", "), n)
 		}
 		return e.key(v, x.Fun) + "(" + strings.Join(args, ", ") + ")"
 	case *ast.StarExpr:
